@@ -1,10 +1,12 @@
 """C18 - invalid configurations are rejected before any input is read or output written"""
 from ..scen_go import go_chain
-from ..scen_expr import option_tails
+from ..scen_expr import option_tails, unbalanced, arity
 
 
 def run(ctx):
     go_chain(ctx, want=('go.validate_before_io',))
     option_tails(ctx)
+    unbalanced(ctx)
+    arity(ctx)
     from ..scen_misc import preset_collection
     preset_collection(ctx)
